@@ -442,6 +442,125 @@ def nesting_cases():
     return res
 
 
+def valid_cases(rng, n):
+    """Programs built to be valid: redeclarations with every order of storage-class specifiers, 64-bit case labels, parenthesised abstract
+    declarators.  Whether each one really is valid is decided by gcc and clang (both must accept it without -w hiding an error)."""
+    res = []
+    FD = ['static int f(int);', 'int f(int);', 'extern int f(int);', 'inline int f(int x) { return x; }', 'static inline int f(int x) { return x; }',
+          'extern inline int f(int x) { return x; }', 'int f(int x) { return x; }', 'static int f(int x) { return x; }', 'extern inline int f(int);', 'inline int f(int);',
+          'static inline int f(int);', 'int f();', 'extern int f(int x) { return x; }']
+    OD = ['static int x;', 'int x;', 'extern int x;', 'int x = 1;', 'static int x = 1;', 'extern int x;', 'int x;']
+    AD = ['extern int a[];', 'int a[];', 'int a[3];', 'extern int a[3];', 'int a[3] = {1, 2, 3};', 'int a[] = {1, 2, 3};', 'static int a[3];']
+    for i in range(n):
+        k = i % 6
+        if k == 0:
+            ds = [rng.choice(FD) for _ in range(rng.randrange(2, 5))]
+            seen = False
+            out = []
+            for d in ds:
+                if '{' in d:
+                    if seen:
+                        continue
+                    seen = True
+                out.append(d)
+            pos = rng.randrange(1, len(out) + 1)
+            out.insert(pos, 'int use(void) { return f(1); }')
+            if rng.random() < 0.3:
+                out.insert(rng.randrange(0, len(out) + 1), 'int blk(void) { extern int f(int); return f(2); }' if rng.random() < 0.5 else 'int blk(void) { int f(int); return f(2); }')
+            res.append(('valid-function-redeclaration', '\n'.join(out) + '\n'))
+        elif k == 1:
+            ds = [rng.choice(OD) for _ in range(rng.randrange(2, 5))]
+            seen = False
+            out = []
+            for d in ds:
+                if '=' in d:
+                    if seen:
+                        continue
+                    seen = True
+                out.append(d)
+            out.insert(rng.randrange(1, len(out) + 1), 'int use(void) { return x; }')
+            if rng.random() < 0.4:
+                out.insert(rng.randrange(0, len(out) + 1), 'int blk(void) { extern int x; return x; }')
+            res.append(('valid-object-redeclaration', '\n'.join(out) + '\n'))
+        elif k == 2:
+            ds = [rng.choice(AD) for _ in range(rng.randrange(2, 4))]
+            seen = False
+            out = []
+            for d in ds:
+                if '=' in d:
+                    if seen:
+                        continue
+                    seen = True
+                out.append(d)
+            out.insert(rng.randrange(1, len(out) + 1), 'int use(void) { return a[0]; }')
+            res.append(('valid-array-redeclaration', '\n'.join(out) + '\n'))
+        elif k == 3:
+            ty = rng.choice(['long', 'unsigned long', 'long long', 'unsigned long long', 'int', 'unsigned', 'short', 'char', 'unsigned char', '_Bool'])
+            labels = rng.sample(['0', '1', '-1', '0x7fffffff', '0x80000000', '0xffffffff', '0x100000000', '-0x80000000L', '-0x80000001L', '0x7fffffffffffffff',
+                                 '(-0x7fffffffffffffffL-1)', '0xffffffffffffffffUL', '4294967296', '255', '256', '-129', '65536', "'a'", '1LL << 40', '(long)1e10'], rng.randrange(2, 7))
+            body = ''.join('  case %s: return %d;\n' % (l, j + 1) for j, l in enumerate(labels))
+            if rng.random() < 0.4:
+                body += '  case 0x200000000 ... 0x200000010: return 77;\n'
+            if rng.random() < 0.5:
+                body += '  default: return 99;\n'
+            res.append(('valid-switch-labels', 'int classify(%s v) {\n  switch (v) {\n%s  }\n  return 0;\n}\n' % (ty, body)))
+        elif k == 4:
+            d = rng.choice([1, 2, 3, 8, 20, 34, 40, 64])
+            inner = rng.choice(['*', '*', '**', '*const', '(*)(void)', '[3]', '(*)[2]', '*(*)(int)', ''])
+            suffix = rng.choice(['', '', '[2]', '(void)']) if inner not in ('', '[3]') else ''
+            if inner == '':
+                tn = 'int'
+            else:
+                tn = 'int ' + '(' * d + inner + ')' * d + suffix
+            if tn.endswith('(void)') and inner in ('*', '**', '*const') and d == 0:
+                tn = 'int *'
+            use = rng.choice(['unsigned long v = sizeof(%s);', 'unsigned long v = _Alignof(%s);', 'void *v = (void *)(%s)0;' if inner in ('*', '**', '*const', '(*)(void)', '*(*)(int)', '(*)[2]') and not suffix else 'unsigned long v = sizeof(%s);',
+                              'int v = _Generic((%s)0, default: 1);' if inner in ('*', '**', '(*)(void)') and not suffix else 'unsigned long v = sizeof(%s);', 'typeof(%s) *v;', '_Atomic(%s) *v;' if not suffix and inner != '[3]' else 'typeof(%s) *v;'])
+            res.append(('valid-abstract-declarator', (use % tn) + '\n'))
+        else:
+            res.append(('valid-misc', rng.choice([
+                'typedef int T; typedef int T; T t;\n', 'struct S; struct S *p; struct S { int a; }; int g(void) { return p->a; }\n', 'int f(); int f(int x) { return x; }\n',
+                'int f(int a[]); int f(int *a) { return a[0]; }\n', 'int f(int (*g)(void)); int f(int g(void)) { return g(); }\n', 'enum E { A, B }; enum E e; int e2 = A; enum E f(void);\n enum E f(void) { return B; }\n',
+                'extern int n; int n; int n; static int m; static int m;\n', 'void f(void); void f(); void f(void) {}\n', 'int f(const int); int f(int x) { return x; }\n',
+                'static int f(void); int g(void) { return f(); } static int f(void) { return 1; }\n', 'inline int f(void) { return 1; } extern int f(void); int g(void) { return f(); }\n',
+                'int main(void) { struct T { int a; }; { struct T; struct T *p; struct T { long b; } t; p = &t; return p->b; } }\n',
+                'int f(void) { typedef int x; { int x = 3; return x; } }\n', 'int f(int n) { int T = n; typedef int U; { U T2 = T; return T2; } }\n',
+                'typedef struct { int a; } S; int f(void) { S S; S.a = 1; return S.a; }\n', 'int x; int f(void) { int x = x; return sizeof(x); }\n',
+                'void f(void) { goto a; { b: ; } a: goto b; }\n', 'int f(int i) { switch (i) case 1: return 2; return 0; }\n', 'int f(int i) { switch (i) { int k; default: k = i; return k; } }\n',
+                'int f(void) { for (struct { int a; } s = {0}; s.a < 3; s.a++) ; return 0; }\n', 'char *s = "a" "b" /* c */ "d"; char t[] = "abc" "\\0";\n',
+            ])))
+    return res
+
+
+def run_valid(a):
+    (idx, cc, workdir, name, text) = a
+    p = os.path.join(workdir, 'v%d.c' % idx)
+    open(p, 'w').write(text)
+    out = {}
+    for comp in ('gcc', 'clang'):
+        rc, o, e = core.sh([comp, '-std=gnu11', '-fsyntax-only', '-Wno-everything' if comp == 'clang' else '-w', p], timeout=60)
+        out[comp] = rc
+    s = os.path.join(workdir, 'v%d.s' % idx)
+    rc, o, e = core.sh(core.cc1_cmd(cc, p, s, []), env=core.SAN_ENV, timeout=30, cwd=workdir)
+    kind, det, msg = classify(rc, o, e, p, [])
+    if kind == 'ok':
+        arc, ao, ae = core.sh(['as', '-o', '/dev/null', s], timeout=60)
+        if arc != 0:
+            aet = ae.decode('utf-8', 'replace')
+            m2 = re.search(r'(?:Error|Fatal error): (.*)', aet)
+            am = m2.group(1) if m2 else core.first_line(aet)
+            kind, det, msg = 'as-rejects', norm_msg(re.sub(r"`[^']*'", '`_\'', am)), am
+    elif kind == 'diag':
+        m = re.search(r'\^ (.*)', e.decode('utf-8', 'replace'))
+        det, msg = norm_msg(m.group(1)) if m else '', core.first_line(e.decode('utf-8', 'replace'))
+    for q in (p, s):
+        try:
+            os.unlink(q)
+        except OSError:
+            pass
+    return idx, out, kind, det, msg
+
+
 def norm_msg(s):
     s = re.sub(r"'[^']*'", "'_'", s)
     s = re.sub(r'"[^"]*"', '"_"', s)
@@ -723,6 +842,38 @@ def run(ctx):
                           script='ASAN_OPTIONS=detect_leaks=0:strict_memcmp=0 ${CHIBICC_SAN:-$CHIBICC} -cc1 -cc1-input input.c -cc1-output /tmp/replay_c13.s input.c '
                                  + ' '.join("'%s'" % x.replace("'", "'\\''") for x in extra if not x.startswith('-I')) +
                                  '; rc=$?; echo "exit status $rc"; if [ $rc -eq 0 ]; then as -o /dev/null /tmp/replay_c13.s || exit 1; exit 0; fi; [ $rc -eq 1 ] && exit 0; exit 1')
+    # constructed valid programs: accepted by gcc and clang => must be accepted, and the assembler must take the output
+    vwork = os.path.join(work, 'valid')
+    os.makedirs(vwork, exist_ok=True)
+    vcases = valid_cases(rng, ctx.scale(900, 12000))
+    seen_v = set()
+    vjobs = []
+    for name, text in vcases:
+        if text in seen_v:
+            continue
+        seen_v.add(text)
+        vjobs.append((len(vjobs), cc, vwork, name, text))
+    for idx, refs, kind, det, msg in core.pmap(run_valid, vjobs, chunksize=8):
+        name, text = vjobs[idx][3], vjobs[idx][4]
+        ctx.evaluations += 1
+        if refs['gcc'] != 0 or refs['clang'] != 0:
+            ctx.count('valid_discarded_reference_rejects')
+            continue
+        ctx.count('valid_programs_compared')
+        ctx.saw('valid:' + name + ':' + kind)
+        if kind == 'ok':
+            continue
+        if kind == 'hang':
+            rc2, o2, e2 = core.sh(core.cc1_cmd(plain, os.path.join(vwork, 'again.c'), os.path.join(vwork, 'again.s'), []), timeout=30, cwd=vwork) if False else ('timeout', b'', b'')
+            open(os.path.join(vwork, 'again.c'), 'w').write(text)
+            rc2, o2, e2 = core.sh(core.cc1_cmd(plain, os.path.join(vwork, 'again.c'), os.path.join(vwork, 'again.s'), []), timeout=60, cwd=vwork)
+            if rc2 != 'timeout':
+                ctx.count('timeout-not-reproduced')
+                continue
+            det = name
+        key = 'C13|%s|%s' % ('rejects-valid' if kind == 'diag' else kind, det)
+        ctx.violation(key, '%s: gcc and clang accept, chibicc: %s %s' % (name, kind, msg[:200]), files={'input.c': text},
+                      script='ASAN_OPTIONS=detect_leaks=0:strict_memcmp=0 timeout 60 ${CHIBICC_SAN:-$CHIBICC} -cc1 -cc1-input input.c -cc1-output /tmp/replay_c13v.s input.c && as -o /dev/null /tmp/replay_c13v.s && exit 0; exit 1')
     # the same answer must reach the user through the driver: when cc1 ends abnormally (signal, abort) or with a diagnostic, `chibicc -c`
     # exits non-zero and leaves no object file.  Inputs: one that kills cc1 (the open stack-exhaustion finding, and deep nesting under a
     # small stack limit) and a few that are diagnosed.
